@@ -314,6 +314,27 @@ pub fn c19(ctx: &Ctx) -> PropResult {
         let setup = if i % 2 == 0 { "" } else { "DISPLAY(DIRECTORY_CREATE(\"d\"))\nDISPLAY(FILE_CREATE(\"f1\"))\nDISPLAY(FILE_CREATE(\"d/f\"))\n" };
         histories.push(format!("{pre}{setup}{}{}", stmt(o1, p1, contents[i % contents.len()]), stmt(o2, p2, contents[(i / 3) % contents.len()])));
     }
+    // life cycles of one path: every sequence of 4 (thorough 5) file operations on the same file, alone and inside a
+    // directory that is removed and re-created in between (handles, caches and "last path" state must not outlive the file)
+    {
+        let fops = ["FILE_CREATE", "FILE_APPEND", "FILE_OVERWRITE", "FILE_REMOVE", "FILE_READ", "PATH_EXISTS"];
+        let len = if ctx.quick() { 4 } else { 5 };
+        let total = fops.len().pow(len as u32);
+        for k in 0..total {
+            let mut kk = k;
+            let mut body = String::new();
+            for step in 0..len {
+                let op = fops[kk % fops.len()];
+                kk /= fops.len();
+                body.push_str(&stmt(op, "f1", contents[(k + step) % contents.len()]));
+            }
+            histories.push(format!("{pre}{body}DISPLAY([FILE_READ(\"f1\")])\n"));
+            if k % 5 == 0 {
+                let inner = body.replace("\"f1\"", "\"d/f\"");
+                histories.push(format!("{pre}DISPLAY(DIRECTORY_CREATE(\"d\"))\n{inner}DISPLAY(DIRECTORY_REMOVE_ALL(\"d\"))\n{inner}DISPLAY(DIRECTORY_CREATE(\"d\"))\n{inner}"));
+            }
+        }
+    }
     let n = if ctx.quick() { 500 } else { 12_000 };
     for _ in 0..n {
         let len = 3 + rng.below(28);
@@ -412,6 +433,12 @@ pub fn c13(ctx: &Ctx) -> PropResult {
             forms.push((format!("IMPORT [\"{}\", \"{}\"] FROM MOD \"{m}\"\n", n0, mixed), vec![], "unknown-name"));
         }
         forms.push((format!("IMPORT MOD \"{}\"\n", m.to_lowercase()), vec![], "unknown-name"));
+        // a name the module does not offer stays an error when something of that name is already callable
+        if m != "CORE" {
+            forms.push((format!("IMPORT \"DISPLAY\" FROM MOD \"{m}\"\n"), vec![], "unknown-name"));
+            forms.push((format!("PROCEDURE local_fn() {{\n}}\nIMPORT [\"{}\", \"local_fn\"] FROM MOD \"{m}\"\n", names[0].0), vec![], "unknown-name"));
+            forms.push((format!("IMPORT [\"{}\", \"LENGTH\"] FROM MOD \"{m}\"\n", names[0].0), vec![], "unknown-name"));
+        }
         for (imp, visible, kind) in forms {
             for (pm, pn, pa) in &reg {
                 if ctx.quick() && *kind != *"unknown-name" && rng.below(3) != 0 && pm != m {
@@ -423,6 +450,16 @@ pub fn c13(ctx: &Ctx) -> PropResult {
                 // a name exported by two modules (none today) would make this ambiguous; the registry has unique names per module
                 cases.push(Case::new(Kind::Run, src).tag(&format!("library:{kind}")).aux(format!("{expected}|{pn}")));
             }
+        }
+    }
+    for (pm, pn, pa) in &reg {
+        let args: Vec<String> = (0..pa + 1).map(|i| i.to_string()).collect();
+        for variant in [pn.to_lowercase(), pn.chars().enumerate().map(|(i, c)| if i == 0 { c } else { c.to_ascii_lowercase() }).collect::<String>()] {
+            if &variant == pn {
+                continue;
+            }
+            let src = format!("keep <- 42\nIMPORT MOD \"{pm}\"\nDISPLAY(keep)\n{variant}({})\n", args.join(", "));
+            cases.push(Case::new(Kind::Run, src).tag("library:name-casing").aux(format!("undefined|{variant}")));
         }
     }
     cases.push(Case::new(Kind::Run, "IMPORT MOD \"NO_SUCH_MODULE\"\nDISPLAY(1)\n".into()).tag("library:unknown-module").aux("import-error|".into()));
@@ -478,6 +515,13 @@ pub fn c13(ctx: &Ctx) -> PropResult {
         module.push_str("PROCEDURE private_helper(x) {\n RETURN x\n}\n");
         module.push_str("EXPORT PROCEDURE LOUD(x) {\n RETURN x\n}\n");
         module.push_str("DISPLAY(pub_two(1))\nDISPLAY(private_helper(5))\n");
+        if kind == 7 || kind == 8 {
+            // a module that exports nothing still runs its top-level code once per import
+            module = String::from("DISPLAY(\"module top-level\")\nsecret <- 7\nPROCEDURE private_helper(x) {\n RETURN x\n}\nDISPLAY(private_helper(5))\n");
+            if kind == 8 {
+                module.push_str("DISPLAY(1 / 0)\n");
+            }
+        }
         match kind {
             0 => module.push_str("DISPLAY(1 / 0)\n"),
             1 => module.push_str("x <- (1 + \n"),
@@ -508,7 +552,8 @@ pub fn c13(ctx: &Ctx) -> PropResult {
         ];
         let again = if rng.chance(1, 4) { import.clone() } else { String::new() };
         let first_probe = if kind == 3 && rng.chance(1, 2) { probes[5] } else { probes[rng.below(probes.len())] };
-        let main = format!("mine <- 10\nDISPLAY(\"main start\")\n{import}{again}DISPLAY(\"after import\")\nDISPLAY(mine)\n{}{}", first_probe, probes[rng.below(probes.len())]);
+        let local = if rng.chance(1, 5) { "PROCEDURE private_helper(x) {\n RETURN \"local\"\n}\nPROCEDURE pub_two(x) {\n RETURN \"local two\"\n}\n" } else { "" };
+        let main = format!("{local}mine <- 10\nDISPLAY(\"main start\")\n{import}{again}DISPLAY(\"after import\")\nDISPLAY(mine)\n{}{}", first_probe, probes[rng.below(probes.len())]);
         let mut files = vec![(format!("{sub}m{i}.ap"), module)];
         if kind == 3 {
             files.push((format!("{sub}inner.ap"), inner));
@@ -772,7 +817,15 @@ pub fn c18(ctx: &Ctx) -> PropResult {
     // every library procedure once with plausible arguments (FS excluded: it touches the outside world by design;
     // INPUT / INPUT_PROMPT read an empty standard input)
     for (m, name, arity) in &reg {
-        if m == "FS" || name == "SLEEP" {
+        if name == "SLEEP" {
+            continue;
+        }
+        if m == "FS" {
+            // inside the scratch working directory (see below); "-" and "" are ordinary (missing) names
+            for path in ["\"c18file\"", "\"-\"", "\"\"", "\"c18dir/x\"", "\"stdout\"", "\"1\""] {
+                let args: Vec<String> = (0..*arity).map(|i| if i == 0 { path.to_string() } else { "\"content\"".to_string() }).collect();
+                programs.push((format!("FS.{name}"), format!("IMPORT MOD \"FS\"\nDISPLAY(\"A\")\nr <- {name}({})\nDISPLAY(r)\nr2 <- {name}({})\nDISPLAY(\"B\")\n", args.join(", "), args.join(", "))));
+            }
             continue;
         }
         let arg = |i: usize| -> &str {
@@ -821,6 +874,17 @@ pub fn c18(ctx: &Ctx) -> PropResult {
     ] {
         programs.push((tag.to_string(), src.to_string()));
     }
+    // identifiers that resemble keywords (another casing), at the start of a statement and inside expressions
+    for kw in crate::props4::KEYWORDS_DOC {
+        let title: String = kw.chars().enumerate().map(|(i, c)| if i == 0 { c } else { c.to_ascii_lowercase() }).collect();
+        let odd: String = kw.chars().enumerate().map(|(i, c)| if i % 2 == 1 { c } else { c.to_ascii_lowercase() }).collect();
+        for id in [title, odd] {
+            if crate::props4::KEYWORDS_DOC.contains(&id.as_str()) || id.to_uppercase() != *kw || id == kw.to_lowercase() {
+                continue;
+            }
+            programs.push(("keyword-like-identifier".into(), format!("{id} <- 1\nDISPLAY({id})\n{{\n{id} <- {id} + 1\n}}\nDISPLAY({id});{id} <- 3\n")));
+        }
+    }
     // user modules: good, with a lexical / syntax / runtime error, missing; whole and selective imports
     let mod_dir = scratch_dir("c18-modules");
     let mods: Vec<(&str, &str)> = vec![
@@ -855,6 +919,15 @@ pub fn c18(ctx: &Ctx) -> PropResult {
         let reply = d.ask(&format!("RUN h{} h h{} 1000000 - {}", hex(src.as_bytes()), hex(main_path.as_bytes()), model_files));
         model_outs.push(imp::parse_model_run(&reply).map(|x| x.0));
     }
+    // FS procedures act relative to the working directory: a scratch directory for the duration of the run
+    let old_cwd = std::env::current_dir().ok();
+    let fswork = mod_dir.join("fswork");
+    let fresh_cwd = || {
+        let _ = std::env::set_current_dir(&mod_dir);
+        let _ = std::fs::remove_dir_all(&fswork);
+        let _ = std::fs::create_dir_all(&fswork);
+        let _ = std::env::set_current_dir(&fswork);
+    };
     let (runs, fd1, fd2) = with_captured_fds(|| {
         programs
             .iter()
@@ -865,6 +938,7 @@ pub fn c18(ctx: &Ctx) -> PropResult {
                 } else {
                     // lexing and parsing alone must be silent as well
                     let _ = imp::parse_record(src);
+                    fresh_cwd();
                     Some(imp::run_impl(src, &main_path, 10000, 32))
                 }
             })
@@ -904,6 +978,7 @@ pub fn c18(ctx: &Ctx) -> PropResult {
         for (_, src) in &programs {
             let (_, a, b) = with_captured_fds(|| {
                 let _ = imp::parse_record(src);
+                fresh_cwd();
                 imp::run_impl(src, &main_path, 10000, 32)
             });
             if !a.is_empty() || !b.is_empty() {
@@ -913,9 +988,12 @@ pub fn c18(ctx: &Ctx) -> PropResult {
         }
         st.failures.push(Failure { what: "impl-vs-oracle".into(), case: Case::new(Kind::Run, culprit), impl_rec: format!("fd1={} fd2={}", hex(&fd1[..fd1.len().min(200)]), hex(&fd2[..fd2.len().min(200)])), model_rec: String::new(), detail: format!("bytes were written to the process's standard streams directly, bypassing the output channel: {:?}", text.chars().take(120).collect::<String>()) });
     }
+    if let Some(c) = old_cwd {
+        let _ = std::env::set_current_dir(c);
+    }
     PropResult {
         stats: st,
-        rule: "every library procedure of the live registry except FS / INPUT / SLEEP called once with plausible arguments between two DISPLAY probes, every statement form, the three IMPORT forms, lexical / syntax / runtime errors, random programs; run in-process with the output channel captured by the hook sink while the process's file descriptors 1 and 2 are redirected to files: the sink must hold exactly the model's displayed output and the descriptors must stay empty (lexing and parsing alone included); static part: the census of output sites regenerated into Gen/Sites.lean and closed by `decide` (see theorems)".into(),
+        rule: "every library procedure of the live registry (SLEEP excepted; FS inside a scratch working directory, INPUT with an empty standard input) called once with plausible arguments between two DISPLAY probes, every statement form, the three IMPORT forms, lexical / syntax / runtime errors, random programs; run in-process with the output channel captured by the hook sink while the process's file descriptors 1 and 2 are redirected to files: the sink must hold exactly the model's displayed output and the descriptors must stay empty (lexing and parsing alone included); static part: the census of output sites regenerated into Gen/Sites.lean and closed by `decide` (see theorems)".into(),
         exhaustive: false,
         notes: vec![format!("{} output sites in /repo/src", output_sites().len()), "the wasm configuration is type-checked (cargo check --features wasm) in the thorough tier, not executed".into()],
     }
